@@ -49,6 +49,13 @@ fn check_no_zero_sized_cycle_inner(
 		_ => unreachable!(),
 	} {
 		if let RegularType::Record(_) = &schema.nodes[field.type_.idx].type_ {
+			if checked_nodes[field.type_.idx] {
+				// Already fully explored (from another field or another record) without finding a
+				// cycle: nothing on the current path can be reached from it, otherwise that
+				// exploration would have found the cycle. Skipping it keeps this linear in
+				// the size of the schema instead of exponential when records are shared.
+				continue;
+			}
 			if visited_nodes[field.type_.idx] {
 				return Err(UnconditionalCycle {});
 			} else {
